@@ -5,8 +5,102 @@ histories (harness/c12.cpp), (c) every node-set expression of C02's families: de
 import os, sys, time, json
 sys.path.insert(0, os.path.join(os.path.dirname(os.path.abspath(__file__)), '..', 'lib'))
 sys.path.insert(0, os.path.dirname(os.path.abspath(__file__)))
-import vlib
+import vlib, refdoc as R, refxpath as X, xpgen as G
 import c02
+
+
+def rtf_shard(shard, nshards, tier):
+    """(d) the same node-set expressions with the context inside a RESULT TREE FRAGMENT (a tree built by FormatterToSourceTree through
+    xsl:copy-of and through literal result elements / xsl:text, converted with xalan:nodeset): delivered order == reference order"""
+    thorough = tier == 'thorough'
+    docs = [d for d in G.docs() if not d.id_attrs][:2 if not thorough else 4]
+    El = R.E
+    # mixed content: text directly before/after/between elements, comments and PIs, attributes on nested elements
+    docs.append(R.make_doc([El('x', [('k', '1')], ['alpha', El('y', [('id', 'i')], ['in', El('z'), 'after-z']), 'beta', R.C('c'), El('z', [('a', '1'), ('b', '2')]), 'gamma', R.P('t', 'd'),
+                                                   El('y', None, [El('y', None, ['deep'])]), 'omega'])], name='MIX'))
+    w = vlib.Worker('xdrv', stderr_path=os.path.join(vlib.BUILD, 'tmp', 'c12r.%d.err' % shard))
+    counts = {'rtf_evaluations': 0, 'rtf_cases': 0, 'rtf_nontrivial': 0, 'rtf_transformations': 0}
+    viols = []
+    samples = []
+    FAMS = ('step1', 'abbrev', 'union', 'filter') if thorough else ('step1', 'union', 'abbrev')
+    cases = [(fam, text, ast) for fam, text, ast in c02.gen_cases(tier) if fam in FAMS and ast is not None and 'id(' not in text and 'namespace' not in text
+             and 'lang(' not in text and 'key(' not in text]
+    if not thorough:
+        cases = cases[::3]
+    NS = ' '.join('xmlns:%s="%s"' % kv for kv in sorted(G.NSMAP.items()) if kv[0] in ('p', 'q'))
+
+    def esc(t):
+        return t.replace('&', '&amp;').replace('<', '&lt;').replace('"', '&quot;')
+
+    def lre(n):
+        """the tree written as literal result elements, xsl:text, xsl:comment, xsl:processing-instruction"""
+        if n.kind == R.ELEM:
+            o = '<xsl:element name="%s"%s>' % (n.qname, (' namespace="%s"' % n.uri) if n.uri else '')
+            o += ''.join('<xsl:attribute name="%s"%s>%s</xsl:attribute>' % (a.qname, (' namespace="%s"' % a.uri) if a.uri else '', esc(a.value)) for a in n.attrs)
+            return o + ''.join(lre(c) for c in n.children) + '</xsl:element>'
+        if n.kind == R.TEXT:
+            return '<xsl:text>%s</xsl:text>' % esc(n.value)
+        if n.kind == R.COMMENT:
+            return '<xsl:comment>%s</xsl:comment>' % esc(n.value)
+        if n.kind == R.PI:
+            return '<xsl:processing-instruction name="%s">%s</xsl:processing-instruction>' % (n.local, esc(n.value))
+        return ''
+    B = 40
+    batches = [cases[i:i + B] for i in range(0, len(cases), B)]
+    jobs = [(di, how, bi) for di in range(len(docs)) for how in ('copy', 'built') for bi in range(len(batches))]
+    for ji, (di, how, bi) in enumerate(jobs):
+        if ji % nshards != shard:
+            continue
+        d = docs[di]
+        if how == 'built' and any(n.kind == R.ELEM and n.nsdecls for n in d.nodes):
+            continue        # namespace declarations of the source are not reproduced by the instruction form
+        ctxnodes = [n for n in d.nodes if n.kind != R.NS]
+        body = ''.join('<e i="%d"><xsl:for-each select="%s"><h><xsl:call-template name="path"/></h></xsl:for-each></e>' % (i, esc(text)) for i, (fam, text, ast) in enumerate(batches[bi]))
+        var = '<xsl:copy-of select="/node()"/>' if how == 'copy' else ''.join(lre(c) for c in d.root.children)
+        xsl = ('<xsl:stylesheet version="1.0" xmlns:xsl="http://www.w3.org/1999/XSL/Transform" xmlns:xalan="http://xml.apache.org/xalan" %s exclude-result-prefixes="xalan">'
+               '<xsl:variable name="t">%s</xsl:variable><xsl:template match="/"><out><xsl:for-each select="xalan:nodeset($t)"><xsl:for-each select="/|//node()|//@*"><c>%s</c></xsl:for-each>'
+               '</xsl:for-each></out></xsl:template>%s</xsl:stylesheet>' % (NS, var, body, c02.VARS_PATH_TEMPLATES))
+        try:
+            r = w.request('tr', xsl, d.to_xml())
+        except vlib.WorkerDied as wd:
+            viols.append(('rtf|fatal|%s batch %d' % (how, bi), {'doc': d.name, 'stderr': wd.stderr_tail[-1200:]}))
+            continue
+        counts['rtf_transformations'] += 1
+        if di == 0 and how == 'copy':
+            counts['rtf_cases'] += len(batches[bi])
+        if r[0] != '0':
+            viols.append(('rtf|transform-error|%s|%s' % (how, r[1][:80]), {'doc': d.name, 'error': r[1][:300], 'first_expr': batches[bi][0][1]}))
+            continue
+        out = R.parse_xml(r[2])
+        cs = [c for c in out.docel.children if c.kind == R.ELEM]
+        if len(cs) != len(ctxnodes):
+            viols.append(('rtf|context-count|%s' % how, {'doc': d.name, 'expected': len(ctxnodes), 'got': len(cs), 'xml': d.to_xml()}))
+            continue
+        bad = set()
+        for pos, (node, c) in enumerate(zip(ctxnodes, cs)):
+            es = [e for e in c.children if e.kind == R.ELEM]
+            for i, (fam, text, ast) in enumerate(batches[bi]):
+                if i in bad:
+                    continue
+                counts['rtf_evaluations'] += 1
+                try:
+                    v = X.evaluate(ast, X.Ctx(node, pos + 1, len(ctxnodes), {}, G.NSMAP))
+                except X.XPathError:
+                    continue
+                if not isinstance(v, X.NodeSet):
+                    continue
+                want = [d.path(n) for n in v]
+                got = [h.string_value().strip() for h in es[i].children]
+                if len(want) >= 2:
+                    counts['rtf_nontrivial'] += 1
+                if got != want:
+                    bad.add(i)
+                    kind = 'duplicates' if len(got) != len(set(got)) else ('order' if sorted(got) == sorted(want) else 'different-set')
+                    viols.append(('rtf|%s|%s|%s' % (kind, how, text), {'expr': text, 'doc': d.name, 'xml': d.to_xml(), 'how': how, 'context': d.path(node), 'expected': want, 'got': got}))
+        if len(samples) < 2:
+            samples.append('rtf(%s) of %s: %s ... x %d context nodes' % (how, d.name, batches[bi][0][1], len(ctxnodes)))
+    w.close()
+    return {'counts': counts, 'viols': viols, 'samples': samples}
 
 
 def main():
@@ -22,17 +116,21 @@ def main():
     res = vlib.run_sharded(c02.shard_main, (tier, 'order'))
     ccounts = vlib.merge_counts([r['counts'] for r in res])
     viols += [vlib.Violation('expr-' + sig, det) for r in res for sig, det in r['viols']]
+    rres = vlib.run_sharded(rtf_shard, (tier,))
+    rcounts = vlib.merge_counts([r['counts'] for r in rres])
+    viols += [vlib.Violation(sig, det) for r in rres for sig, det in r['viols']]
     cov = {
         'states': counts.get('states', 0),
         'transitions': counts.get('transitions', 0),
         'traces_validated_against_impl': counts.get('transitions', 0),
-        'samples': samples[:8] + [x for r in res for x in r['samples']][:3],
+        'samples': samples[:8] + [x for r in res for x in r['samples']][:3] + [x for r in rres for x in r['samples']][:2],
         'max_depth': counts.get('max_depth', 0),
         'pairs_checked': counts.get('pairs', 0),
         'expression_evaluations': ccounts.get('evaluations', 0),
         'expression_cases': ccounts.get('cases', 0),
-        'evaluations': counts.get('evaluations', 0) + ccounts.get('evaluations', 0),
-        'distinct_nontrivial': counts.get('bfs_nontrivial_states', 0) + ccounts.get('nontrivial', 0),
+        'rtf_evaluations': rcounts.get('rtf_evaluations', 0), 'rtf_cases': rcounts.get('rtf_cases', 0), 'rtf_transformations': rcounts.get('rtf_transformations', 0),
+        'evaluations': counts.get('evaluations', 0) + ccounts.get('evaluations', 0) + rcounts.get('rtf_evaluations', 0),
+        'distinct_nontrivial': counts.get('bfs_nontrivial_states', 0) + ccounts.get('nontrivial', 0) + rcounts.get('rtf_nontrivial', 0),
         'rule': '(b) breadth-first search over ALL histories of {addNodeInDocOrder(n) for 8 nodes of two documents, 5 bulk '
                 'addNodesInDocOrder with honest doc/reverse/unknown flags, clear} to depth 6 (quick) / 9 (thorough), states = (node '
                 'sequence, order flag) de-duplicated; the search saturates (max_depth reported). Invariant in every state: no duplicate, '
@@ -40,7 +138,10 @@ def main():
                 'traces validated = transitions. (a) isNodeAfter for every ordered pair of non-document nodes of 4 documents in 3 '
                 'representations (native indexed tree, Xerces wrapper built eagerly, Xerces wrapper in mapping mode) vs pre-order rank. '
                 '(c) every node-set expression of the C02 families step1/step2/abbrev/filter/union x 5 documents x every context node: '
-                'the delivered list equals the reference list in order. States that violate the invariant are reported and not expanded.',
+                'the delivered list equals the reference list in order. (d) the expressions of step1/abbrev/union(/filter) with every node of a '
+                'RESULT TREE FRAGMENT as context (xalan:nodeset of a variable built by xsl:copy-of and by xsl:element/xsl:text/xsl:comment/PI '
+                'instructions from 3 / 5 documents, one with mixed content): delivered order == reference order. States that violate the '
+                'invariant are reported and not expanded.',
         'exhaustive': counts.get('restart_cap_hit', 0) == 0,
     }
     vlib.finish('C12', tier, 'model_checking', cov, viols, t0,
